@@ -198,6 +198,41 @@ func descriptorShapes() []shapeCase {
 			mk("text/"+slot+"/"+tx.label, func(pkg string) *spec.File { return textFile(pkg, slot, tx.text) })
 		}
 	}
+	// definitions that break a documented annotation rule: the plugins that check the rule answer with
+	// an error, the others with files — either way an answer. The error paths get edge-shaped
+	// surroundings too: a request message with no field at all, or with no scalar field.
+	for _, m := range misuses() {
+		m := m
+		if !m.Service {
+			mk("misuse/"+m.Rule, func(pkg string) *spec.File {
+				msgs, enums, _ := m.Build(pkg)
+				f := &spec.File{Messages: msgs, Enums: enums}
+				f.Services = []*spec.Service{svcFor(pkg, "Offender", "Offender")}
+				return f
+			})
+			continue
+		}
+		for _, reqShape := range []string{"as-declared", "request-without-fields", "request-with-only-message-fields", "request-with-only-repeated-fields"} {
+			reqShape := reqShape
+			mk("misuse/"+m.Rule+"/"+reqShape, func(pkg string) *spec.File {
+				msgs, svc, _ := m.Svc(pkg)
+				for _, mm := range msgs {
+					if mm.Name != "BadReq" || reqShape == "as-declared" {
+						continue
+					}
+					switch reqShape {
+					case "request-without-fields":
+						mm.Fields = nil
+					case "request-with-only-message-fields":
+						mm.Fields = []*spec.Field{spec.FM("when", 1, spec.Timestamp), spec.FM("self", 2, "."+pkg+".BadReq")}
+					case "request-with-only-repeated-fields":
+						mm.Fields = []*spec.Field{spec.F("tags", 1, spec.String).Rep(), spec.F("counts", 2, spec.Int32).MapOf(spec.String)}
+					}
+				}
+				return &spec.File{Messages: msgs, Services: []*spec.Service{svc}}
+			})
+		}
+	}
 	// no package / no go_package
 	out = append(out, shapeCase{ID: "no-proto-package", Files: []*spec.File{{Path: "c16/nopkg.proto", Package: "", GoImport: "lab/gen/c16nopkg", GoName: "c16nopkg",
 		Messages: []*spec.Message{plain("NoPkgMsg")}, Services: []*spec.Service{{Name: "NoPkgService", Methods: []*spec.Method{{Name: "Call", In: ".NoPkgMsg", Out: ".NoPkgMsg", HTTP: &spec.HTTP{Path: "/np", Verb: 2}}}}}}}})
